@@ -30,7 +30,8 @@ RULE = ('(streams) momentum, SMA and volatility signals built over 1-5 assets wi
         '1e-9 relative. Non-trivial = stream longer than the lookback (window slides), >= 2 lookbacks and >= 2 '
         'assets; sessions: >= 1 late entrant.'
         " Round-10 reach: a quarter of the sessions build the signals collection on a data handler of its own (the same files with the opposite price adjustment); buffers and values are compared with that feed's closes."
-        " Round-11 reach: stream op `refused_update` (one asset carries a non-positive print, the collection update raises part-way, the caller carries on: every window holds its closes with or without that day's and later updates deliver their own prices); sessions whose collection was fed the 1-5 business days before the start directly.")
+        " Round-11 reach: stream op `refused_update` (one asset carries a non-positive print, the collection update raises part-way, the caller carries on: every window holds its closes with or without that day's and later updates deliver their own prices); sessions whose collection was fed the 1-5 business days before the start directly."
+        " Round-12 reach: entry instants of dynamic-universe streams written in Tokyo / New York time.")
 ASSUMPTIONS = [
     'positive prices; lookbacks 1..30; up to 5 assets; streams up to 60 steps; sessions up to 60 days',
     'in sessions the market has data before every entry (an unpriced asset is C06/C07\'s subject)',
@@ -211,7 +212,10 @@ def run_stream(case):
     dyn = case.get('entries')
     split = bool(dyn) and case.get('split', False)
     if dyn:
-        uni = q.DynamicUniverse({a: (None if e is None else T0 + pd.Timedelta(days=e)) for a, e in zip(assets, dyn)})
+        # (entry instants may be written in another time zone: the same instants)
+        etz = case.get('entry_tz')
+        uni = q.DynamicUniverse({a: (None if e is None else (
+            (T0 + pd.Timedelta(days=e)).tz_convert(etz) if etz else T0 + pd.Timedelta(days=e))) for a, e in zip(assets, dyn)})
     else:
         uni = q.StaticUniverse(list(assets))
     # with `split` the volatility signal follows a static universe of all assets while momentum and SMA follow the
@@ -233,6 +237,8 @@ def run_stream(case):
     cls = ['dynamic' if dyn else 'static', 'assets_%d' % len(assets)]
     if split:
         cls.append('signals_with_different_universes')
+    if dyn and case.get('entry_tz'):
+        cls.append('entry_dates_written_in_another_zone')
     if passes > 1:
         cls.append('second_pass_over_shared_universe')
     if any(len(v) == 1 for v in lbs.values()):
@@ -274,6 +280,7 @@ def streams(draw):
         case['entries'] = [draw(st.sampled_from([0, 0, 1, 3, 8, None])) for _ in assets]
         case['split'] = draw(st.booleans())
         case['second_pass'] = draw(st.booleans())
+        case['entry_tz'] = draw(st.sampled_from([None, None, 'Asia/Tokyo', 'America/New_York']))
     n = draw(st.one_of(st.integers(1, 12), st.integers(1, 60)))
     ops = []
     for _ in range(n):
